@@ -162,20 +162,22 @@ def parse_const(o):
 
 # ------------------------------------------------------------------ state
 class St:
-    __slots__ = ('mem', 'facts', 'known', 'effects', 'wver', 'stack', 'iters', 'nfork')
+    __slots__ = ('mem', 'facts', 'known', 'effects', 'wver', 'stack', 'iters', 'nfork', 'order')
     def __init__(self):
         self.mem = {}; self.facts = []; self.known = {}; self.effects = []
-        self.wver = 0; self.stack = (); self.iters = 0; self.nfork = 0
+        self.wver = 0; self.stack = (); self.iters = 0; self.nfork = 0; self.order = ()
     def copy(self):
         s = St.__new__(St)
         s.mem = dict(self.mem); s.facts = list(self.facts); s.known = dict(self.known)
         s.effects = list(self.effects); s.wver = self.wver; s.stack = self.stack
-        s.iters = self.iters; s.nfork = self.nfork
+        s.iters = self.iters; s.nfork = self.nfork; s.order = self.order
         return s
     # facts: ('is', t, variant) / ('val', t, v) / ('nval', t, vals) / ('or', alternatives)
     def add_fact(self, f, site):
         self.facts.append((f, site, self.stack))
         k = f[0]
+        of = order_fact(f)
+        if of is not None: self.order = self.order + (of,)
         if k == 'is': self.known[('d', f[1])] = ('is', f[2])
         elif k == 'isnot':
             old = self.known.get(('d', f[1]))
@@ -186,6 +188,54 @@ class St:
             old = self.known.get(('v', f[1]))
             ex = set(f[2]) | (set(old[1]) if old and old[0] == 'nval' else set())
             self.known[('v', f[1])] = ('nval', tuple(sorted(ex, key=repr)))
+
+def order_fact(f):
+    """facts about eq / lt / cmp of two terms, as (rel, a, b) with rel in eq ne lt ge"""
+    if f[0] == 'val' and f[1][0] == 'eq' and isinstance(f[2], bool):
+        return ('eq' if f[2] else 'ne', f[1][1], f[1][2])
+    if f[0] == 'val' and f[1][0] == 'lt' and isinstance(f[2], bool):
+        return ('lt' if f[2] else 'ge', f[1][1], f[1][2])
+    if f[0] == 'is' and f[1][0] == 'ordcmp':
+        a, b = f[1][1], f[1][2]
+        return {'Less': ('lt', a, b), 'Equal': ('eq', a, b), 'Greater': ('lt', b, a)}.get(f[2])
+    if f[0] == 'isnot' and f[1][0] == 'ordcmp' and len(f[2]) == 2:
+        rest = [v for v in ('Less', 'Equal', 'Greater') if v not in f[2]]
+        if len(rest) == 1: return order_fact(('is', f[1], rest[0]))
+    return None
+
+def order_consistent(order, new):
+    """finite check: is there a weak ordering of the terms related to `new` satisfying all order facts?
+    Sound pruning only: returns True whenever the component is too large to enumerate."""
+    comp = {new[1], new[2]}
+    facts = [new]
+    changed = True
+    rest = list(order)
+    while changed:
+        changed = False
+        for of in list(rest):
+            if of[1] in comp or of[2] in comp:
+                comp.add(of[1]); comp.add(of[2]); facts.append(of); rest.remove(of); changed = True
+    if len(facts) < 2: return True
+    terms = sorted(comp, key=repr)
+    n = len(terms)
+    if n > 5: return True
+    idx = {t: i for i, t in enumerate(terms)}
+    consts = [(i, t[1]) for t, i in idx.items() if t[0] == 'c' and isinstance(t[1], int) and not isinstance(t[1], bool)]
+    import itertools
+    for ranks in itertools.product(range(n), repeat=n):
+        ok = True
+        for (i, a) in consts:
+            for (j, b) in consts:
+                if i < j and ((a < b) != (ranks[i] < ranks[j]) or (a == b) != (ranks[i] == ranks[j])): ok = False
+        if not ok: continue
+        for rel, a, b in facts:
+            ra, rb = ranks[idx[a]], ranks[idx[b]]
+            if rel == 'eq' and ra != rb: ok = False; break
+            if rel == 'ne' and ra == rb: ok = False; break
+            if rel == 'lt' and not ra < rb: ok = False; break
+            if rel == 'ge' and not ra >= rb: ok = False; break
+        if ok: return True
+    return False
 
 class Frame:
     __slots__ = ('uid', 'body', 'subst', 'loops')
@@ -204,10 +254,14 @@ class Interp:
         self.exits = []        # abort/unreachable exits gathered during a root run
         self.steps = 0
         self.budget = budget
+        self.budget_limit = budget
         self.budget_hit = False
+        self.abort_agg = {}
         self.unmodelled = {}
         self.inlined = {}
         self.merge_bool = True
+        self.pruned_order = 0
+        self.aggregate_aborts = True
 
     # ---- helpers
     def new_uid(self):
@@ -342,6 +396,19 @@ class Interp:
 
     # ---- exits
     def record_exit(self, st, kind, site, detail=None, ret=None):
+        if kind in ('abort', 'unreachable') and self.aggregate_aborts:
+            dk = detail[0] if isinstance(detail, tuple) and detail else detail
+            key = (kind, site, tuple(x[1] for x in st.stack), dk)
+            fs = set(f[0] for f in st.facts)
+            a = self.abort_agg.get(key)
+            if a is None:
+                self.abort_agg[key] = {'kind': kind, 'site': site, 'stack': st.stack, 'detail': detail, 'count': 1,
+                                       'common': fs, 'first_facts': list(st.facts), 'had_effects': bool(st.effects),
+                                       'writes_before': [e for e in st.effects if e[0] in ('save', 'remove')]}
+            else:
+                a['count'] += 1; a['common'] &= fs
+                if st.effects: a['had_effects'] = True
+            return
         self.exits.append({'kind': kind, 'site': site, 'detail': detail, 'ret': ret,
                            'facts': list(st.facts), 'effects': list(st.effects), 'stack': st.stack})
 
@@ -407,6 +474,15 @@ class Interp:
 
     def fork(self, st, outs, site):
         res = []
+        if st.order:
+            kept = []
+            for bb, fact in outs:
+                of = order_fact(fact)
+                if of is not None and not order_consistent(st.order, of):
+                    self.pruned_order += 1; continue
+                kept.append((bb, fact))
+            outs = kept
+            if not outs: raise PathEnd()
         n = len(outs)
         for i, (bb, fact) in enumerate(outs):
             s = st if i == n - 1 else st.copy()
@@ -445,7 +521,7 @@ class Interp:
             try:
                 while True:
                     self.steps += 1
-                    if self.steps > self.budget:
+                    if self.steps > self.budget_limit:
                         self.budget_hit = True; raise PathEnd()
                     if bi in heads:
                         c = loops.get(bi, 0)
@@ -563,12 +639,37 @@ class Interp:
             return self.call_fn(st, fn, list(args), [''] * len(args), site, {})
         return [(st, ('call', 'apply', (), (fv,) + tuple(args)))]
 
+    def snapshot(self, st, t, site=None):
+        """value of an argument handed to an opaque callee: references resolved; closures summarised"""
+        t = self.deref(st, t)
+        if t[0] == 'named': t = t[2]
+        if t[0] == 'closure':
+            caps = tuple((n, self.snapshot(st, v, site)) for n, v in t[2])
+            body = self.p.bodies.get(t[1])
+            outcomes = ()
+            if body is not None:
+                s2 = st.copy(); nf = len(s2.facts)
+                old_agg = self.aggregate_aborts; self.aggregate_aborts = False
+                nargs = max(0, body['arg_count'] - 1)
+                bound = [('bound', t[1], i) for i in range(nargs)]
+                saved = self.exits; self.exits = []
+                try:
+                    outs = self.run_body(s2, body, [t] + bound, {}, site or 'closure')
+                finally:
+                    aborted = self.exits; self.exits = saved; self.aggregate_aborts = old_agg
+                outcomes = tuple((tuple(f[0] for f in s3.facts[nf:]), self.snapshot(s3, r, site)) for s3, r in outs)
+                outcomes = outcomes + tuple((tuple(f[0] for f in e['facts'][nf:]), ('abort', e['detail'])) for e in aborted)
+            return ('lambda', t[1], caps, outcomes)
+        if t[0] == 'tup':
+            return ('tup', tuple(self.snapshot(st, x, site) for x in t[1]))
+        return t
+
     def opaque_call(self, st, info, args):
         name = info['name']
         self.unmodelled[name] = self.unmodelled.get(name, 0) + 1
         vals = []
         for a, ty in zip(args, info['argtys'] + [''] * len(args)):
-            vals.append(self.deref(st, a))
+            vals.append(self.snapshot(st, a, info['site']))
         term = ('call', name, info['targs'], tuple(vals))
         for a, ty in zip(args, info['argtys'] + [''] * len(args)):
             if ty.startswith('&mut ') and a[0] == 'ref':
@@ -579,6 +680,9 @@ class Interp:
     def run_root(self, name, params):
         body = self.p.bodies[name]
         self.exits = []
+        self.abort_agg = {}
+        self.steps_root0 = self.steps
+        self.budget_limit = self.steps + self.budget
         st = St()
         args = [('sym', p) for p in params]
         t0 = time.time()
@@ -591,7 +695,8 @@ class Interp:
                 kind = 'ok' if r0[2] == 'Ok' else 'err'
             exits.append({'kind': kind, 'site': None, 'detail': None, 'ret': rv,
                           'facts': s.facts, 'effects': s.effects, 'stack': ()})
-        return {'root': name, 'params': params, 'exits': exits, 'wall': time.time() - t0}
+        return {'root': name, 'params': params, 'exits': exits, 'aborts': list(self.abort_agg.values()),
+                'wall': time.time() - t0, 'steps': self.steps - self.steps_root0}
 
 
 ROOTS = {
